@@ -509,6 +509,9 @@ def load_corpus():
             except Exception:  # noqa: BLE001
                 continue
             if spec and spec.get('nodes') and len(spec['nodes']) >= 2:
+                kinds = {m[0] for n in spec['nodes'] for _, m in n.get('params', ())}
+                if 'Rec' in kinds and kinds & {'OneOf', 'Switch'}:
+                    continue        # recurrent subgraph next to / inside lazy constructs: known findings K04, K06
                 _CORPUS.append(spec)
     return _CORPUS
 
